@@ -5,6 +5,6 @@ Require Extraction.
 Require Import ExtrOcamlBasic.
 From VF Require Import Base Univ.
 Cd "../ocaml/gen".
-Separate Extraction Univ.uinit Univ.ustep Univ.usnap Univ.uretained
+Separate Extraction Univ.uinit Univ.ustep Univ.usnap Univ.uretained Univ.uleaked
   BinInt.Z.add BinInt.Z.mul BinInt.Z.opp BinInt.Z.div_eucl BinInt.Z.eqb BinInt.Z.ltb BinInt.Z.of_nat.
 Cd "../../coq".
